@@ -32,9 +32,9 @@ package lexer
 
 // rawString: a back-quoted string is a String token only when the closing quote was found
 //@ func (lxr *Lexer) rawString(start) (r)
-//@   requires lxr != nil && lxOK(lxr) && 0 <= start && start < lxr.si && lxr.src[start] == 96 && lxr.si == start + 1
+//@   requires lxr != nil && lxOK(lxr) && 0 <= start && start < lxr.si && lxr.src[start] == 96 && lxr.si == start + 1 && start < 2147483647
 //@   modifies lxr.si
-//@   ensures! pos: lxOK(lxr) && lxr.si >= old(lxr.si)
+//@   ensures! pos: lxOK(lxr) && lxr.si >= old(lxr.si) && r.Pos == start
 //@   ensures! terminated: r.Token == tokens.String ==> lxr.si > old(lxr.si) && lxr.src[lxr.si - 1] == 96 && len(r.Text) == lxr.si - start - 2 && forall k :: 0 <= k && k < len(r.Text) ==> r.Text[k] == lxr.src[start + 1 + k] && r.Text[k] != 96
 //@   ensures! unterminated: r.Token != tokens.String ==> r.Token == tokens.Error && lxr.si == len(lxr.src)
 //@   loop 0 invariant lxOK(lxr) && lxr.si >= old(lxr.si) && forall k :: old(lxr.si) <= k && k < lxr.si ==> lxr.src[k] != 96
@@ -42,9 +42,9 @@ package lexer
 
 // quotedString: a quoted literal is a String token only when its closing quote was found
 //@ func (lxr *Lexer) quotedString(start, quote) (r)
-//@   requires lxr != nil && lxOK(lxr) && (quote == 34 || quote == 39)
+//@   requires lxr != nil && lxOK(lxr) && (quote == 34 || quote == 39) && 0 <= start && start < 2147483647
 //@   modifies lxr.si
-//@   ensures! pos: lxOK(lxr) && lxr.si >= old(lxr.si)
+//@   ensures! pos: lxOK(lxr) && lxr.si >= old(lxr.si) && r.Pos == start
 //@   ensures! terminated: r.Token == tokens.String ==> lxr.si > old(lxr.si) && lxr.src[lxr.si - 1] == quote
 //@   ensures! unterminated: r.Token != tokens.String ==> r.Token == tokens.Error && lxr.si == len(lxr.src)
 //@   loop 0 invariant 0 <= i && i <= len(src) && forall k :: 0 <= k && k < i ==> src[k] != 92 && src[k] != quote
@@ -53,3 +53,94 @@ package lexer
 //@   loop 1 invariant ref(sb.buf) == nil || fresh(sb.buf)
 //@   loop 1 invariant lxOK(lxr) && lxr.si >= old(lxr.si) && ((c == 0 && lxr.si == len(lxr.src)) || (c != 0 && lxr.si > old(lxr.si) && readByte(lxr.src[lxr.si - 1]) == c))
 //@   loop 1 decreases len(lxr.src) - lxr.si + (c != 0 ? 1 : 0)
+
+//@ property C32
+// ---- totality of the scanning helpers: positions stay inside the source, no panic, progress ----
+//@ func (lxr *Lexer) match(c) (r)
+//@   requires lxr != nil && lxOK(lxr) && c != 0
+//@   modifies lxr.si
+//@   ensures! lxOK(lxr) && (r ==> lxr.si == old(lxr.si) + 1 && lxr.src[old(lxr.si)] == c) && (!r ==> lxr.si == old(lxr.si))
+//@   ensures! exact: r <==> old(lxr.si) < len(lxr.src) && lxr.src[old(lxr.si)] == c
+//@ func (lxr *Lexer) matchOneOf(valid) (r)
+//@   requires lxr != nil && lxOK(lxr) && forall k :: 0 <= k && k < len(valid) ==> valid[k] != 0
+//@   modifies lxr.si
+//@   ensures! lxOK(lxr) && (r ==> lxr.si == old(lxr.si) + 1) && (!r ==> lxr.si == old(lxr.si))
+//@ func (lxr *Lexer) matchWhile(f) (r)
+//@   funczero
+//@   requires lxr != nil && lxOK(lxr)
+//@   modifies lxr.si
+//@   ensures! lxOK(lxr) && lxr.si >= old(lxr.si) && (r <==> lxr.si > old(lxr.si))
+//@   ensures! first: old(lxr.si) < len(lxr.src) && fcall(f, lxr.src[old(lxr.si)]) ==> r
+//@   ensures! last: r ==> fcall(f, lxr.src[lxr.si - 1])
+//@   loop 0 invariant frame()
+//@   loop 0 invariant lxOK(lxr) && lxr.si >= old(lxr.si) && (lxr.si > old(lxr.si) ==> fcall(f, lxr.src[lxr.si - 1])) && (old(lxr.si) < len(lxr.src) && fcall(f, lxr.src[old(lxr.si)]) ==> lxr.si > old(lxr.si) || lxr.si == old(lxr.si))
+//@   loop 0 decreases len(lxr.src) - lxr.si
+//@ func (lxr *Lexer) matchWithUnderscores(f) (r)
+//@   funczero
+//@   requires lxr != nil && lxOK(lxr)
+//@   modifies lxr.si
+//@   ensures! lxOK(lxr) && lxr.si >= old(lxr.si) && (r ==> lxr.si > old(lxr.si))
+//@   ensures! progress: old(lxr.si) < len(lxr.src) && fcall(f, lxr.src[old(lxr.si)]) ==> lxr.si > old(lxr.si)
+//@   ensures! last: r ==> fcall(f, lxr.src[lxr.si - 1])
+//@   loop 0 invariant frame()
+//@   loop 0 invariant lxOK(lxr) && lxr.si >= old(lxr.si) && start == old(lxr.si)
+//@   loop 0 decreases len(lxr.src) - lxr.si
+//@ func (lxr *Lexer) nonWhiteRemaining() (r)
+//@   requires lxr != nil && lxOK(lxr)
+//@   loop 0 invariant frame()
+//@   loop 0 invariant lxr.si <= i && i <= len(lxr.src)
+//@   loop 0 decreases len(lxr.src) - i
+//@ func (lxr *Lexer) matchIdentTail()
+//@   requires lxr != nil && lxOK(lxr)
+//@   modifies lxr.si
+//@   ensures! lxOK(lxr) && lxr.si >= old(lxr.si)
+//@ func isIdentChar(r) (b)
+//@   ensures! b <==> r == 95 || asciiIsLower(r) || asciiIsUpper(r) || asciiIsDigit(r)
+
+// token scanners called after their first character(s) were read at `start`
+//@ func (lxr *Lexer) whitespace(start, c0) (r)
+//@   requires lxr != nil && lxOK(lxr) && 0 <= start && start < 2147483647 && lxr.si == start + 1 && c0 == readByte(lxr.src[start]) && (c0 == 32 || c0 == 9 || c0 == 13 || c0 == 10 || c0 == 11)
+//@   modifies lxr.si
+//@   ensures! lxOK(lxr) && lxr.si > start && r.Pos == start
+//@   loop 0 invariant frame()
+//@   loop 0 invariant lxOK(lxr) && lxr.si >= start + 1 && (c == 0 ==> lxr.si == len(lxr.src)) && (lxr.si == start + 1 && c != 0 ==> c == c0)
+//@   loop 0 decreases len(lxr.src) - lxr.si + (c != 0 ? 1 : 0)
+//@ func (lxr *Lexer) lineComment(start) (r)
+//@   requires lxr != nil && lxOK(lxr) && 0 <= start && start < 2147483647 && start + 2 <= lxr.si
+//@   modifies lxr.si
+//@   ensures! lxOK(lxr) && lxr.si >= start + 1 && r.Pos == start
+//@   loop 0 invariant frame()
+//@   loop 0 invariant lxOK(lxr) && lxr.si >= start + 2
+//@   loop 0 decreases len(lxr.src) - lxr.si
+//@ func (lxr *Lexer) spanComment(start) (r)
+//@   requires lxr != nil && lxOK(lxr) && 0 <= start && start < 2147483647 && start <= lxr.si
+//@   modifies lxr.si
+//@   ensures! lxOK(lxr) && lxr.si >= old(lxr.si) && r.Pos == start
+//@   loop 0 invariant frame()
+//@   loop 0 invariant 0 <= lxr.si && lxr.si <= len(lxr.src) + 1 && lxr.si >= old(lxr.si)
+//@   loop 0 decreases len(lxr.src) + 1 - lxr.si
+//@ func (lxr *Lexer) number(start) (r)
+//@   requires lxr != nil && lxOK(lxr) && 0 <= start && start < 2147483647 && lxr.si == start + 1
+//@   requires asciiIsDigit(lxr.src[start]) || (lxr.src[start] == 46 && start + 1 < len(lxr.src) && asciiIsDigit(lxr.src[start + 1]))
+//@   modifies lxr.si
+//@   ensures! ok: lxOK(lxr)
+//@   ensures! progress: lxr.si > start
+//@   ensures! pos: r.Pos == start
+//@ func (lxr *Lexer) identifier(start) (r)
+//@   purecalls
+//@   requires lxr != nil && lxOK(lxr) && 0 <= start && start < 2147483647 && start <= lxr.si
+//@   modifies lxr.si
+//@   ensures! lxOK(lxr) && lxr.si >= old(lxr.si) && r.Pos == start
+
+// next: one token; never panics; ends exactly at end of input with Eof, otherwise makes progress
+//@ func (lxr *Lexer) next() (r)
+//@   requires lxr != nil && lxOK(lxr) && len(lxr.src) < 2147483647
+//@   modifies lxr.si
+//@   ensures! inside: lxOK(lxr) && r.Pos == old(lxr.si)
+//@   ensures! eof: old(lxr.si) == len(lxr.src) ==> r.Token == tokens.Eof && lxr.si == old(lxr.si)
+//@   ensures! progress: old(lxr.si) < len(lxr.src) ==> lxr.si > old(lxr.si)
+
+//@ func (lxr *Lexer) Next() (r)
+//@   requires lxr != nil && lxOK(lxr) && len(lxr.src) < 2147483647
+//@   modifies lxr.si, lxr.ahead
+//@   ensures! lxOK(lxr)
